@@ -263,6 +263,13 @@ def evaluate(pre_entries, inv, umask=0o022, ignore=None, clone_ok=False):
         tb_phys = None
         if tp is not None:
             tb_phys = posixpath.basename(tb) if tp in (".", "") else tp + "/" + posixpath.basename(tb)
+        if tb_phys is not None and t.kind(s_n, True) == "d":
+            # a directory mapped onto a symbolic link to a directory goes *through* the link (cp -rT src link does the same)
+            le = t.get(tb_phys)
+            if le is not None and le["k"] == "l":
+                rr, re_ = t.resolve(tb_phys, follow_last=True)
+                if rr is not None and re_ is not None and re_["k"] == "d":
+                    tb_phys = rr
         if s_phys is not None and (s_phys == tb_phys or s_phys == norm(dest_n)):
             return Verdict("reject", "source-is-destination")
         if tb_phys is None:
